@@ -179,3 +179,31 @@ Proof.
   - apply procs_quiet_b_sound. exact Hq.
   - apply settled_b_sound. exact Hs.
 Qed.
+
+(* ---- the same at run level under the extended semantics (Model/FactoryX.v: Init methods that call back into the
+   factory, post-processors that short-circuit instantiation; Proofs/FactoryXWiring.v).  Additional side conditions:
+   no component has more than 100 points, the Init methods of the post-processor components issue no lookups, and
+   the holder is not listed as short-circuited (such a component is not populated at all). ------------------- *)
+From IocVerif Require Import Model.FactoryX Proofs.FactoryXLife Proofs.FactoryXNoPanic Proofs.FactoryXWiring.
+
+Theorem c09_required_points_set_extended : forall s x o st h c k p,
+  small_points s -> run_xt repaired s x = (o, Ok st) ->
+  procs_pointless_b (normalise repaired s) = true -> procs_quiet_b (normalise repaired s) x = true ->
+  stages_ok_b (normalise repaired s) = true ->
+  alookup h (L1 (reg st)) <> None -> get_comp (s_pop s) h = Some c -> never_short x h -> nth_error (c_points c) k = Some p ->
+  pt_required p = true ->
+  field_of st h k <> [].
+Proof.
+  intros s x o st h c k p Hsm H Hpp Hq Hso Hpub Hc Hns Hk Hr.
+  destruct (run_xt_wired s x o st Hsm H Hpp Hq Hso h c k p Hpub Hc Hns Hk) as [y0 [Hx Hw]].
+  unfold further_one in Hx. rewrite Hr in Hx.
+  destruct (filter_dependencies repaired (s_pop s) h p (candidates (names_of (s_pop s)) (s_pop s) p)) as [l|] eqn:Ef;
+    [|discriminate].
+  injection Hx as <-.
+  assert (Hl : l <> []).
+  { rewrite filter_dependencies_repaired in Ef by reflexivity.
+    destruct (survivors (s_pop s) h p (candidates (names_of (s_pop s)) (s_pop s) p)) as [|a t] eqn:E; [discriminate|].
+    cbv zeta in Ef. injection Ef as Hl0. subst l.
+    destruct (pt_slice p); [|destruct t]; intro Hx0; inversion Hx0. }
+  apply (wired_point_required _ _ _ _ _ _ Hw Hr). rewrite remove_nil_map_Some. exact Hl.
+Qed.
